@@ -29,6 +29,15 @@ CHECKS = {
  "C16": dict(technique="outcome oracle on grid constructors: exhaustive enumeration of a pool of 31x31x11 argument triples x 2 grid kinds and 27 category-value tuples x 3 class kinds, plus random compositions",
              text="Every construction ends in GridInitializationError or an array that satisfies the statement (length, finite, strictly increasing, end points, equal spacing); discrete acceptance iff values numerically 0..n-1. The pools are enumerated exhaustively; random compositions beyond.",
              ref="5/C16", note="x64 on; bool bounds judged at float32 precision (JAX promotes bools to float32); numpy-scalar field values / dataclass instances observed only; known finding: span below resolution", category="exploration"),
+ "C17": dict(technique="reference-model monitor on create_state_choice_space: itertools-style enumeration oracle; exhaustive enumeration of all boolean filter tables for 5 small restricted-variable shapes, sampled multi-filter/period-dependent spaces",
+             text="651 masks enumerated exhaustively (all tables with >=1 passing combination for shapes 2x2, 2x3, 3x2, 2x2x2 with 2 states, 2x2x2 with 2 choices) plus sampled spaces with 1-3 filters, 1-3 restricted states, 0-3 restricted choices, _period; stored combinations, indexer, segments, dense grids, axis names compared exactly.",
+             ref="5/C17", note="trusted: numpy evaluation of the filter text + argwhere enumeration"),
+ "C18": dict(technique="numpy oracle on the real arg-max primitives (eager and jit, all axis subsets, masks, ties), segment_argmax, the discrete-choice reduction vs python loops, and the real continuation-policy + spacemap wiring inside one jit with producers re-evaluated eagerly",
+             text="Held on K arrays/segmentations/layouts; fused-producer cases reproduce the structure in which the original equality-based arg-max failed.",
+             ref="5/C18", note="trusted: numpy reductions; NaN among candidates not covered by the statement"),
+ "C19": dict(technique="closed-form oracle by parameter name (= nested python loops) on productmap / vmap_1d / spacemap and the keyword/positional wrappers for generated functions of all parameter kinds",
+             text="Held on K generated functions x ordered subsets of mapped names (exhaustive for <= 4 parameters and <= 3 mapped names), shuffled keyword orders, scalar/tuple/dict outputs, misuse -> ValueError.",
+             ref="5/C19", note="parameters with defaults are outside the statement and not generated"),
 }
 DEFAULT_NA = "check not built yet in this revision of /verif (planned in DESIGN.md section 5)"
 
